@@ -26,6 +26,10 @@ def artists(fig):
         bars = [p for p in ax.patches if p.__class__.__name__ == "Rectangle"]
         if bars:
             out.append({"kind": "bars", "label": "", "x": [float(p.get_x() + p.get_width() / 2.0) for p in bars], "y": [float(p.get_height()) for p in bars]})
+        for cont in getattr(ax, "containers", []):
+            ps = [p for p in cont.patches]
+            out.append({"kind": "barset", "label": str(cont.get_label()), "title": ax.get_title(),
+                        "x": [float(p.get_x() + p.get_width() / 2.0) for p in ps], "y": [float(p.get_height()) for p in ps]})
         for col in ax.collections:
             try:
                 off = np.asarray(col.get_offsets(), float)
@@ -37,6 +41,8 @@ def artists(fig):
 
 
 def _eq(want, got):
+    if want == "any":
+        return True
     if want == "undef":
         return math.isnan(got) or math.isinf(got)
     if math.isnan(want):
@@ -50,7 +56,7 @@ def matches(ex, ey, art, unordered):
     if len(art["x"]) != len(ex) or len(art["y"]) != len(ey):
         return False
     if unordered:
-        key = lambda p: tuple((-1e300 if (v == "undef" or v != v) else v) for v in p)
+        key = lambda p: tuple((-1e300 if (isinstance(v, str) or v != v) else v) for v in p)
         want = sorted(zip(ex, ey), key=key)
         got = sorted(zip(art["x"], art["y"]), key=lambda p: tuple((-1e300 if v != v else v) for v in p))
         return all(_eq(a[0], b[0]) and _eq(a[1], b[1]) for a, b in zip(want, got))
@@ -107,11 +113,76 @@ def _check_chunk(cases):
     return n, divs
 
 
+def prob_files(c, wd):
+    from harness import materialize as mat
+    paths = []
+    n = len(c["inputs"][0]["obs"])
+    for w, inp in enumerate(c["inputs"]):
+        d = {"times": [1325376000], "leads": [0], "locs": list(range(1, n + 1)), "lat": [50 + k for k in range(n)], "lon": [10] * n, "elev": [0] * n,
+             "hasObs": True, "obs": inp["obs"], "fcst": [0 if v == "nan" else v for v in inp["obs"]], "pit": inp["pit"],
+             "thresholds": [1, 2], "cdf": [v for pair in zip(inp["c1"], inp["c2"]) for v in pair]}
+        p = os.path.join(wd, "pd%d.txt" % w)
+        mat.write_text(p, d)
+        paths.append(p)
+    return paths
+
+
+def _series_ok(c, series, arts, names):
+    """-> list of messages for the expected series that are not drawn as specified"""
+    msgs = []
+    for s in series:
+        ex = [expr.ev(e) for e in s["x"]]
+        ey = [expr.ev(e) for e in s["y"]]
+        label = s["label"]
+        if isinstance(label, list) and label[0] == "#bars":
+            want_label = names[label[1] - 1] + label[2]
+            sets = [a for a in arts if a["kind"] == "barset" and (a["label"] == want_label or (label[2] == "" and a["title"] == names[label[1] - 1]))]
+            if not any(len(a["y"]) == len(ey) and all(_eq(w, g) for w, g in zip(ey, a["y"])) for a in sets):
+                msgs.append("bars of %r: expected heights %r, drawn %r" % (want_label, ey, [a["y"] for a in sets][:2]))
+            continue
+        cands = [a for a in arts if a["kind"] == "line" and matches(ex, ey, a, False)]
+        if isinstance(label, list):
+            lab = names[label[1] - 1]
+            if not any(a["label"] == lab for a in cands):
+                near = [a for a in arts if a["label"] == lab]
+                msgs.append("series of input %d (%r): expected x=%r y=%r, that label shows x=%r y=%r" % (label[1], lab, ex, ey, near[0]["x"] if near else None, near[0]["y"] if near else None))
+        elif not cands:
+            msgs.append("%s series: expected x=%r y=%r is not drawn" % (label or "unlabelled", ex, ey))
+    return msgs
+
+
+def _check_prob_chunk(cases):
+    import matplotlib.pyplot as mpl
+    n = 0
+    divs = []
+    wd = par.workdir()
+    out = os.path.join(wd, "pdiagram.png")
+    for c in cases:
+        paths = prob_files(c, wd)
+        names = [os.path.basename(p) for p in paths]
+        st, fig = _figure(paths, list(c["argv"]), [], out)
+        n += 1
+        rep = {"kind": "diagram", "argv": c["argv"], "inputs": c["inputs"], "expected": c["series"]}
+        if st != "ok":
+            site = st.split(" ")[0] if st.startswith("exception") else "diagram:%s:%s" % (c["diagram"], st)
+            divs.append((site, False, "%s -> %s" % (" ".join(c["argv"]), st), rep))
+            continue
+        arts = artists(fig)
+        msgs = _series_ok(c, c["series"], arts, names)
+        if msgs:
+            # recorded finding F-p1-bin: a probability of exactly 1 lies in no bin; known only if the figure equals the as-implemented series
+            known = c["impl"] != c["series"] and not _series_ok(c, c["impl"], arts, names)
+            site = "diagram:p-equal-1-in-no-bin" if known else "diagram:%s:series" % c["diagram"]
+            divs.append((site, known, "%s: %s" % (" ".join(c["argv"]), msgs[0]), rep))
+        mpl.close("all")
+    return n, divs
+
+
 def run(ctx):
     ctx.rule = ("case = (dataset with missing cells or boundary-straddling times, diagram, option variant): standard line/bar plots, obsfcst, qq, "
                 "scatter, against, sort, hist, freq, error, performance; non-trivial = the expected series has more than one point")
     ctx.assumptions = ["figures are compared as matplotlib artist data (Line2D x/y, bar heights), not pixels",
-                       "diagrams not yet transcribed into Diagrams.tla: cond, marginal, reliability, invreliability, discrimination, roc, droc, pithist, "
+                       "diagrams not yet transcribed into Diagrams.tla: cond, invreliability, droc, "
                        "spreadskill, timeseries, taylor, murphy, economicvalue, bsdecomp, igncontrib, fss, autocorr/autocov, meteo, change, map, rank, impact"]
     res = tlc.run("MC_Diagrams", "MC_Diagrams_C12", tag=ctx.pid + "_det", timeout_s=1500)
     ctx.add_tlc("MC_Diagrams/C12", res, {"Family": "C12"})
@@ -127,7 +198,23 @@ def run(ctx):
     if cases:
         c = cases[len(cases) // 2]
         ctx.sample({"argv": c["argv"], "expected_series": c["series"][:2]})
-    ctx.exhaustive = True
+    res = tlc.run("MC_ProbDiagrams", "MC_ProbDiagrams", tag=ctx.pid + "_prob", timeout_s=1500)
+    ctx.add_tlc("MC_ProbDiagrams", res)
+    pcases = res.emitted
+    if ctx.tier == "quick":
+        import random
+        pcases = random.Random(ctx.seed).sample(pcases, min(len(pcases), 220))
+    for n, divs in par.pmap(_check_prob_chunk, [pcases[i:i + 8] for i in range(0, len(pcases), 8)], chunk=1):
+        ctx.evaluations += n
+        for site, known, detail, rep in divs:
+            ctx.diverge(site, rep, as_implemented=known, detail=detail)
+    ctx.traces += len(pcases)
+    for c in pcases:
+        ctx.nontriv(str((c["argv"], c["inputs"][0]["c1"], c["inputs"][1]["c1"], c["inputs"][0]["obs"][:3])))
+    if pcases:
+        c = pcases[len(pcases) // 2]
+        ctx.sample({"argv": c["argv"], "expected_series": c["series"][:1]})
+    ctx.exhaustive = ctx.tier != "quick"
     par.clean_workdirs()
 
 
